@@ -1,10 +1,18 @@
+/-
+  C03 helper lemmas, part 1: the primitives of the APER encoder model (Model/AperEnc.lean, i.e. marshal.go) against the
+  clauses of Spec/X691.lean — constrained whole number (11.5), length determinant (11.9), INTEGER (13), ENUMERATED (14),
+  CHOICE index (23.6), size constraints, OCTET STRING (17), BIT STRING (16).
+  `…_fwd`: whatever bits the model writes are the specification's.  (`…_total`, the converse, is in AperSpecTotal.lean.)
+  The two encoders are not syntactically parallel: the model's loops (`octetCount`, `bitsForRange`, `fragLoop`) are
+  characterised first (`octetCount_char`, `octetsFor_eq`, `octetsForSigned_eq`, `bitsFor_eq`, `fragLoop_small`).
+-/
 import Stgutg.Model.AperEnc
 import Stgutg.Spec.X691
 import Stgutg.Proofs.Bits
 
 namespace Stgutg.Proofs.AperSpec
 open Stgutg Stgutg.Aper Stgutg.Proofs.Bits
-open Stgutg.Spec.X691 (bitsFor octetsFor pad constrainedWholeNumber lengthDeterminant twosComplement octetsForSigned
+open Stgutg.Spec.X691 (bitsFor octetsFor pad constrainedWholeNumber lengthDeterminant lengthAndItems twosComplement octetsForSigned
   integer enumerated sizeConstraint bitString octetString)
 
 /-! ### small facts (the first four are copies of lemmas of Proofs/AperRT.lean, kept here so that this file
@@ -39,7 +47,7 @@ theorem fragLoop_small (unit : Nat) (sr : Int) (lb fuel pos rawLength : Nat) (pa
         if rawLength + lb = 0 then .ok lenBits
         else .ok (lenBits ++ alignBits (pos + lenBits.length) ++ payload.take ((rawLength + lb) * unit)) := by
   unfold fragLoop
-  have h1 : ¬ rawLength > 65536 := by omega
+  have h1 : ¬ rawLength ≥ 65536 := by omega
   have h2 : ¬ rawLength ≥ 16384 := by omega
   simp only [h1, h2, if_false]
   cases appendLength pos sr rawLength with
@@ -728,34 +736,180 @@ theorem choice_index_fwd (pos p nAlt : Nat) (ext : Bool) (ub : Int) (b : Bits)
   rw [e] at this
   exact this
 
+/-! ### 11.9.3.8 fragmentation -/
+
+theorem testBit_c000 (i : Nat) : Nat.testBit 0xc000 i = (decide (i = 14) || decide (i = 15)) := by
+  by_cases h : i < 16
+  · exact (by decide : ∀ j : Fin 16, Nat.testBit 0xc000 j.val = (decide (j.val = 14) || decide (j.val = 15))) ⟨i, h⟩
+  · have : Nat.testBit 0xc000 i = false := by
+      apply Nat.testBit_lt_two_pow
+      have : 2 ^ 16 ≤ 2 ^ i := Nat.pow_le_pow_right (by decide) (by omega)
+      omega
+    rw [this]
+    have h14 : ¬ i = 14 := by omega
+    have h15 : ¬ i = 15 := by omega
+    simp [h14, h15]
+
+/-- the mask of the fragmentation loop: the largest multiple of 16K below 64K -/
+theorem and_c000 (n : Nat) (h : n < 65536) : n &&& 0xc000 = n / 16384 * 16384 := by
+  apply Nat.eq_of_testBit_eq
+  intro i
+  rw [Nat.testBit_and, testBit_c000]
+  have e : n / 16384 * 16384 = (n >>> 14) <<< 14 := by
+    rw [Nat.shiftRight_eq_div_pow, Nat.shiftLeft_eq]
+  rw [e, Nat.testBit_shiftLeft, Nat.testBit_shiftRight]
+  by_cases h14 : i = 14
+  · subst h14; simp
+  · by_cases h15 : i = 15
+    · subst h15; simp
+    · simp only [h14, h15, decide_false, Bool.or_false, Bool.and_false]
+      by_cases hge : i ≥ 14
+      · have : n.testBit i = false := by
+          apply Nat.testBit_lt_two_pow
+          have : 2 ^ 16 ≤ 2 ^ i := Nat.pow_le_pow_right (by decide) (by omega)
+          omega
+        have e2 : 14 + (i - 14) = i := by omega
+        simp [hge, e2, this]
+      · simp [hge]
+
+theorem fragOctet : ∀ m : Fin 5, 1 ≤ m.val →
+    natToBits 8 (m.val ||| 0xc0) = [true, true] ++ natToBits 6 m.val ∧ (m.val ||| 0xc0) < 2 ^ 8 := by decide
+
+theorem alignBits_aligned (p : Nat) (h : p % 8 = 0) : alignBits p = [] := by
+  simp [alignBits, padLen, h]
+
+theorem aligned_after (p : Nat) : (p + (alignBits p).length) % 8 = 0 := by
+  rw [alignBits_length]; omega
+
+/-- the part the loop takes from a length of 16K or more: m·16K with m = min(4, n / 16K) -/
+theorem frag_part (n : Nat) (h : 16384 ≤ n) :
+    (if n ≥ 65536 then 65536 else if n ≥ 16384 then n &&& 0xc000 else n) = min 4 (n / 16384) * 16384 := by
+  by_cases h64 : n ≥ 65536
+  · simp only [h64, if_true]
+    have : min 4 (n / 16384) = 4 := by omega
+    rw [this]
+  · simp only [h64, h, if_true, if_false]
+    rw [and_c000 n (by omega)]
+    have : min 4 (n / 16384) = n / 16384 := by omega
+    rw [this]
+
+/-- **11.9.3.5–8**: with a general (unconstrained) length the repaired fragmentation loop writes exactly the
+    fragments, lengths and final length the Recommendation prescribes, for every length -/
+theorem fragLoop_unc (unit : Nat) (hunit : (16384 * unit) % 8 = 0) :
+    ∀ (f pos n : Nat) (payload : Bits), payload.length = n * unit → n / 16384 + 1 ≤ f →
+      fragLoop unit (-1) 0 (f + 1) pos n payload = .ok (lengthAndItems unit f pos n payload) := by
+  intro f
+  induction f with
+  | zero => intro pos n payload _ h; omega
+  | succ f ih =>
+    intro pos n payload hpl hf
+    by_cases hn : n < 16384
+    · -- a single length and the items
+      rw [fragLoop_small unit (-1) 0 (f + 1) pos n payload hn, length_unc pos (-1) n hn (by omega)]
+      unfold lengthAndItems
+      simp only [hn, if_true, Nat.add_zero]
+      by_cases h0 : n = 0
+      · simp [h0]
+      · simp only [h0, if_false]
+        have htake : payload.take (n * unit) = payload := by
+          rw [List.take_of_length_le]; omega
+        rw [htake, pad_eq]
+        by_cases h128 : n < 128 <;> simp [h128, pad_eq]
+    · -- a fragment of m·16K items, then the rest
+      have hge : 16384 ≤ n := by omega
+      unfold fragLoop lengthAndItems
+      simp only [hn, if_false]
+      rw [frag_part n hge]
+      have hm1 : 1 ≤ min 4 (n / 16384) := by omega
+      have hm4 : min 4 (n / 16384) ≤ 4 := by omega
+      generalize hm : min 4 (n / 16384) = m at hm1 hm4
+      have hmn : m * 16384 ≤ n := by omega
+      -- the length octet 11mmmmmm
+      have hal : appendLength pos (-1) (m * 16384) = .ok (pad pos ++ [true, true] ++ natToBits 6 m) := by
+        unfold appendLength
+        have c1 : ¬ ((-1 : Int) ≤ 65536 ∧ (-1 : Int) > 0) := by decide
+        have c2 : ¬ m * 16384 ≤ 127 := by omega
+        have c3 : ¬ m * 16384 ≤ 16383 := by omega
+        simp only [c1, c2, c3, if_false]
+        have hsh : (m * 16384) >>> 14 = m := by
+          rw [Nat.shiftRight_eq_div_pow]; omega
+        rw [hsh]
+        obtain ⟨f1, f2⟩ := fragOctet ⟨m, by omega⟩ hm1
+        simp only at f1 f2
+        rw [putBits_some _ 8 (by decide) f2, f1]
+        show Except.ok (alignBits pos ++ ([true, true] ++ natToBits 6 m)) = _
+        rw [pad_eq, List.append_assoc]
+      rw [hal]
+      dsimp only
+      -- the fragment is whole octets
+      have hclen : (payload.take (m * 16384 * unit)).length = m * 16384 * unit := by
+        rw [List.length_take, hpl]
+        have : m * 16384 * unit ≤ n * unit := Nat.mul_le_mul_right _ hmn
+        omega
+      have hc8 : (m * 16384 * unit) % 8 = 0 := by
+        have : m * 16384 * unit = m * (16384 * unit) := by rw [Nat.mul_assoc]
+        rw [this, Nat.mul_mod, hunit]; simp
+      have hdl : (payload.drop (m * 16384 * unit)).length = (n - m * 16384) * unit := by
+        rw [List.length_drop, hpl, Nat.sub_mul]
+      have hf' : (n - m * 16384) / 16384 + 1 ≤ f := by omega
+      split
+      · omega
+      · split
+        · rename_i hcont
+          simp only [Nat.add_zero]
+          have hround : ((payload.take (m * 16384 * unit)).length + 7) / 8 * 8 = (payload.take (m * 16384 * unit)).length := by
+            rw [hclen]; omega
+          rw [hround, ← pad_eq (pos + (pad pos ++ [true, true] ++ natToBits 6 m).length)]
+          rw [ih _ (n - m * 16384) (payload.drop (m * 16384 * unit)) hdl hf']
+          dsimp only
+          have hal0 : alignBits (pos + (pad pos ++ [true, true] ++ natToBits 6 m).length +
+              (pad (pos + (pad pos ++ [true, true] ++ natToBits 6 m).length)).length +
+              (payload.take (m * 16384 * unit)).length) = [] := by
+            apply alignBits_aligned
+            rw [hclen]
+            simp only [pad_eq]
+            have := aligned_after (pos + (alignBits pos ++ [true, true] ++ natToBits 6 m).length)
+            omega
+          rw [hal0]
+          simp only [List.append_nil, List.append_assoc]
+        · rename_i hcont
+          exfalso
+          apply hcont
+          right
+          omega
+
 /-! ### size constraints of BIT STRING / OCTET STRING (16, 17) -/
 
+/-- size bounds the proof can handle: 0 ≤ lb ≤ ub; SIZE(lb..MAX) only with lb = 0 (the library writes length − lb there);
+    a constrained length (ub < 64K) spans fewer than 16K values (the library's loop would fragment a constrained
+    length of 16K or more, X.691 does not) -/
 def strOK' (lbP ubP : Option Int) : Bool :=
   match lbP, ubP with
   | none, _ => true
   | some l, none => l == 0
-  | some l, some u => decide (0 ≤ l) && decide (l ≤ u)
+  | some l, some u => decide (0 ≤ l) && decide (l ≤ u) && (decide (65535 < u) || decide (u - l < 16384))
 
-/-- the model's size preamble against the effective size constraint of the specification:
-    either a fixed size below 64K (no length determinant) or a length determinant that agrees -/
+/-- the length is a constrained whole number (11.9.3.3) rather than a general length -/
+def isCon (ub : Option Nat) : Bool := match ub with | some u => decide (u < 65536) | none => false
+
+/-- the model's size preamble against the effective size constraint of the specification: a fixed size below 64K
+    (no length determinant), a constrained length determinant that agrees, or a general length -/
 theorem sizePreamble_fwd (len : Nat) (ext : Bool) (lbP ubP : Option Int) (pre : Bits) (lb ub sr : Int)
     (hok : strOK' lbP ubP = true)
     (h : sizePreamble len ext lbP ubP = .ok (pre, lb, ub, sr))
     (hfix : sr = 1 → (len : Int) = ub) (hge : sr ≠ 1 → lb ≤ len) :
     ∃ lbS ubS, sizeConstraint len ext lbP ubP = some (pre, lbS, ubS) ∧
       ((sr = 1 ∧ ubS = some lbS ∧ lbS < 65536 ∧ lbS = len) ∨
-       (sr ≠ 1 ∧ ¬ (ubS = some lbS ∧ lbS < 65536) ∧ 0 ≤ lb ∧
-          ∀ pos l, len < 16384 → appendLength pos sr (len - lb.toNat) = .ok l →
-            lengthDeterminant pos len lbS ubS = some l)) := by
+       (sr ≠ 1 ∧ ¬ (ubS = some lbS ∧ lbS < 65536) ∧ 0 ≤ lb ∧ isCon ubS = true ∧ len - lb.toNat < 16384 ∧
+          ∀ pos l, appendLength pos sr (len - lb.toNat) = .ok l → lengthDeterminant pos len lbS ubS = some l) ∨
+       (sr = -1 ∧ lb = 0 ∧ ¬ (ubS = some lbS ∧ lbS < 65536) ∧ isCon ubS = false)) := by
   unfold sizePreamble at h
   unfold sizeConstraint
   cases lbP with
   | none =>
     simp only [Except.ok.injEq, Prod.mk.injEq] at h
     obtain ⟨rfl, rfl, rfl, rfl⟩ := h
-    refine ⟨0, none, rfl, Or.inr ⟨by decide, by simp, by decide, ?_⟩⟩
-    intro pos l hlen hl
-    exact length_fwd_unc pos (-1) _ 0 none l (by simpa using hlen) (by omega) (by simp) (by simpa using hl)
+    exact ⟨0, none, rfl, Or.inr (Or.inr ⟨rfl, rfl, by simp, rfl⟩)⟩
   | some l =>
     cases ubP with
     | none =>
@@ -763,12 +917,10 @@ theorem sizePreamble_fwd (len : Nat) (ext : Bool) (lbP ubP : Option Int) (pre : 
       subst hok
       simp only [Except.ok.injEq, Prod.mk.injEq] at h
       obtain ⟨rfl, rfl, rfl, rfl⟩ := h
-      refine ⟨0, none, by simp, Or.inr ⟨by decide, by simp, by decide, ?_⟩⟩
-      intro pos l hlen hl
-      exact length_fwd_unc pos (-1) _ 0 none l (by simpa using hlen) (by omega) (by simp) (by simpa using hl)
+      exact ⟨0, none, by simp, Or.inr (Or.inr ⟨rfl, rfl, by simp, rfl⟩)⟩
     | some u =>
-      simp only [strOK', Bool.and_eq_true, decide_eq_true_eq] at hok
-      obtain ⟨hl0, hlu⟩ := hok
+      simp only [strOK', Bool.and_eq_true, Bool.or_eq_true, decide_eq_true_eq] at hok
+      obtain ⟨⟨hl0, hlu⟩, hspan⟩ := hok
       dsimp only at h ⊢
       have hbad : ¬ (l < 0 ∨ u < l) := by omega
       simp only [hbad, if_false]
@@ -783,13 +935,11 @@ theorem sizePreamble_fwd (len : Nat) (ext : Bool) (lbP ubP : Option Int) (pre : 
           · simp only [hbig, if_true] at hfix hge ⊢
             have hin : (len : Int) ≥ l ∧ (len : Int) ≤ u := by omega
             simp only [hin, and_self, if_true]
-            refine ⟨l.toNat, some u.toNat, rfl, Or.inr ⟨by decide, ?_, by decide, ?_⟩⟩
+            refine ⟨l.toNat, some u.toNat, rfl, Or.inr (Or.inr ⟨trivial, trivial, ?_, ?_⟩)⟩
             · intro ⟨h1, h2⟩
               simp only [Option.some.injEq] at h1
               omega
-            · intro pos l' hlen hl
-              exact length_fwd_unc pos (-1) _ _ _ l' (by simpa using hlen) (by omega)
-                (by intro u' hu'; simp only [Option.some.injEq] at hu'; omega) (by simpa using hl)
+            · simp only [isCon, decide_eq_false_iff_not]; omega
           · simp only [hbig, if_false] at hfix hge ⊢
             by_cases hsr : u - l + 1 = 1
             · have := hfix hsr
@@ -800,11 +950,12 @@ theorem sizePreamble_fwd (len : Nat) (ext : Bool) (lbP ubP : Option Int) (pre : 
             · have := hge hsr
               have hin : (len : Int) ≥ l ∧ (len : Int) ≤ u := by omega
               simp only [hin, and_self, if_true]
-              refine ⟨l.toNat, some u.toNat, rfl, Or.inr ⟨hsr, ?_, hl0, ?_⟩⟩
+              refine ⟨l.toNat, some u.toNat, rfl, Or.inr (Or.inl ⟨hsr, ?_, hl0, ?_, by omega, ?_⟩)⟩
               · intro ⟨h1, h2⟩
                 simp only [Option.some.injEq] at h1
                 omega
-              · intro pos l' hlen hl
+              · simp only [isCon, decide_eq_true_eq]; omega
+              · intro pos l' hl
                 apply length_fwd_con pos len l.toNat u.toNat l' (by omega) (by omega) (by omega) (by omega)
                 have e : ((u.toNat : Nat) : Int) - (l.toNat : Nat) + 1 = u - l + 1 := by omega
                 rw [e]; exact hl
@@ -819,15 +970,24 @@ theorem sizePreamble_fwd (len : Nat) (ext : Bool) (lbP ubP : Option Int) (pre : 
           have hin : ¬ ((len : Int) ≥ l ∧ (len : Int) ≤ u) := by omega
           have hin2 : (len : Int) > u := by omega
           simp only [hin, if_false, hin2, and_self, if_true]
-          refine ⟨0, none, rfl, Or.inr ⟨by decide, by simp, by decide, ?_⟩⟩
-          intro pos l' hlen hl
-          exact length_fwd_unc pos (-1) _ 0 none l' (by simpa using hlen) (by omega) (by simp) (by simpa using hl)
+          exact ⟨0, none, rfl, Or.inr (Or.inr ⟨trivial, trivial, by simp, rfl⟩)⟩
+
+theorem isCon_true (ub : Option Nat) (h : isCon ub = true) : ∃ u, ub = some u ∧ u < 65536 := by
+  cases ub with
+  | none => simp [isCon] at h
+  | some u => exact ⟨u, rfl, by simpa [isCon] using h⟩
+
+theorem isCon_false (ub : Option Nat) (h : isCon ub = false) : ub = none ∨ ∃ u, ub = some u ∧ ¬ u < 65536 := by
+  cases ub with
+  | none => exact Or.inl rfl
+  | some u => exact Or.inr ⟨u, rfl, by simpa [isCon] using h⟩
 
 /-! ### 17 OCTET STRING, 16 BIT STRING -/
 
-/-- **17 OCTET STRING** (also the form the library gives PrintableString), lengths below the fragmentation threshold -/
+/-- **17 OCTET STRING** (also the form the library gives PrintableString), every length: a general length of 16K octets
+    or more is fragmented (11.9.3.8) -/
 theorem octet_string_fwd (pos : Nat) (bytes : Bytes) (ext : Bool) (lbP ubP : Option Int) (b : Bits)
-    (hok : strOK' lbP ubP = true) (hlen : bytes.length < 16384)
+    (hok : strOK' lbP ubP = true)
     (h : appendOctetString pos bytes ext lbP ubP = .ok b) : octetString pos bytes ext lbP ubP = some b := by
   unfold appendOctetString at h
   cases hsp : sizePreamble bytes.length ext lbP ubP with
@@ -846,7 +1006,7 @@ theorem octet_string_fwd (pos : Nat) (bytes : Bytes) (ext : Bool) (lbP ubP : Opt
         have heq' : (bytes.length : Int) = ub := by omega
         obtain ⟨lbS, ubS, hsc, hcase⟩ := sizePreamble_fwd _ _ _ _ _ _ _ _ hok hsp (fun _ => heq') (fun hne => absurd hsr hne)
         rw [hsc]
-        rcases hcase with ⟨_, hu, hl64, hll⟩ | ⟨hne, _⟩
+        rcases hcase with ⟨_, hu, hl64, hll⟩ | ⟨hne, _⟩ | ⟨hne, _⟩
         · dsimp only
           simp only [hu, hl64, and_self, if_true]
           split at h
@@ -867,23 +1027,26 @@ theorem octet_string_fwd (pos : Nat) (bytes : Bytes) (ext : Bool) (lbP ubP : Opt
               simp only [g1, g2, if_true, if_false]
               rw [← h]
         · exact absurd hsr hne
+        · omega
     · simp only [hsr, if_false] at h
       split at h
       · simp [err] at h
       · rename_i hge
         obtain ⟨lbS, ubS, hsc, hcase⟩ := sizePreamble_fwd _ _ _ _ _ _ _ _ hok hsp (fun h1 => absurd h1 hsr) (fun _ => by omega)
         rw [hsc]
-        rcases hcase with ⟨h1, _⟩ | ⟨_, hnf, hlb0, hL⟩
+        rcases hcase with ⟨h1, _⟩ | ⟨_, hnf, hlb0, hcon, hsmall, hL⟩ | ⟨hsr1, hlb, hnf, hcon⟩
         · exact absurd h1 hsr
-        · dsimp only
-          simp only [hnf, if_false]
-          rw [fragLoop_small 8 sr lb.toNat _ _ _ _ (by omega)] at h
+        · -- constrained length determinant
+          obtain ⟨u, rfl, hu⟩ := isCon_true ubS hcon
+          dsimp only
+          simp only [hnf, if_false, hu, decide_true, if_true]
+          rw [fragLoop_small 8 sr lb.toNat _ _ _ _ hsmall] at h
           cases hal : appendLength (pos + pre.length) sr (bytes.length - lb.toNat) with
           | error e => rw [hal] at h; simp at h
           | ok l =>
             rw [hal] at h
             dsimp only at h
-            rw [hL _ l hlen hal]
+            rw [hL _ l hal]
             dsimp only
             have hsum : bytes.length - lb.toNat + lb.toNat = bytes.length := by omega
             rw [hsum] at h
@@ -904,10 +1067,23 @@ theorem octet_string_fwd (pos : Nat) (bytes : Bytes) (ext : Bool) (lbP ubP : Opt
               rw [htake] at h
               rw [← h, pad_eq]
               simp only [List.append_assoc]
+        · -- general length, fragmented from 16K octets on
+          subst hsr1 hlb
+          simp only [Int.toNat_zero, Nat.sub_zero] at h
+          rw [fragLoop_unc 8 (by decide) (bytes.length / 16384 + 1) _ bytes.length (bytesToBits bytes)
+            (by rw [hcl]; omega) (Nat.le_refl _)] at h
+          simp only [Except.ok.injEq] at h
+          rcases isCon_false ubS hcon with rfl | ⟨u, rfl, hu⟩
+          · dsimp only
+            simp only [hnf, if_false, Bool.false_eq_true]
+            rw [← h]
+          · dsimp only
+            simp only [hnf, if_false, hu, decide_false, Bool.false_eq_true]
+            rw [← h]
 
-/-- **16 BIT STRING**, lengths below the fragmentation threshold; the content is the first `len` bits of the value's octets -/
+/-- **16 BIT STRING**, every length; the content is the first `len` bits of the value's octets -/
 theorem bit_string_fwd (pos : Nat) (bytes : Bytes) (len : Nat) (ext : Bool) (lbP ubP : Option Int) (b : Bits)
-    (hok : strOK' lbP ubP = true) (hlen : len < 16384)
+    (hok : strOK' lbP ubP = true)
     (h : appendBitString pos bytes len ext lbP ubP = .ok b) :
     bitString pos ((bytesToBits bytes).take len) ext lbP ubP = some b := by
   unfold appendBitString at h
@@ -933,7 +1109,7 @@ theorem bit_string_fwd (pos : Nat) (bytes : Bytes) (len : Nat) (ext : Bool) (lbP
           have heq' : (len : Int) = ub := by omega
           obtain ⟨lbS, ubS, hsc, hcase⟩ := sizePreamble_fwd _ _ _ _ _ _ _ _ hok hsp (fun _ => heq') (fun hne => absurd hsr hne)
           rw [hsc]
-          rcases hcase with ⟨_, hu, hl64, hll⟩ | ⟨hne, _⟩
+          rcases hcase with ⟨_, hu, hl64, hll⟩ | ⟨hne, _⟩ | ⟨hne, _⟩
           · dsimp only
             simp only [hu, hl64, and_self, if_true]
             split at h
@@ -948,23 +1124,25 @@ theorem bit_string_fwd (pos : Nat) (bytes : Bytes) (len : Nat) (ext : Bool) (lbP
               simp only [g2, if_true]
               rw [← h]
           · exact absurd hsr hne
+          · omega
       · simp only [hsr, if_false] at h
         split at h
         · simp [err] at h
         · rename_i hge
           obtain ⟨lbS, ubS, hsc, hcase⟩ := sizePreamble_fwd _ _ _ _ _ _ _ _ hok hsp (fun h1 => absurd h1 hsr) (fun _ => by omega)
           rw [hsc]
-          rcases hcase with ⟨h1, _⟩ | ⟨_, hnf, hlb0, hL⟩
+          rcases hcase with ⟨h1, _⟩ | ⟨_, hnf, hlb0, hcon, hsmall, hL⟩ | ⟨hsr1, hlb, hnf, hcon⟩
           · exact absurd h1 hsr
-          · dsimp only
-            simp only [hnf, if_false]
-            rw [fragLoop_small 1 sr lb.toNat _ _ _ _ (by omega)] at h
+          · obtain ⟨u, rfl, hu⟩ := isCon_true ubS hcon
+            dsimp only
+            simp only [hnf, if_false, hu, decide_true, if_true]
+            rw [fragLoop_small 1 sr lb.toNat _ _ _ _ hsmall] at h
             cases hal : appendLength (pos + pre.length) sr (len - lb.toNat) with
             | error e => rw [hal] at h; simp at h
             | ok l =>
               rw [hal] at h
               dsimp only at h
-              rw [hL _ l hlen hal]
+              rw [hL _ l hal]
               dsimp only
               have hsum : len - lb.toNat + lb.toNat = len := by omega
               rw [hsum] at h
@@ -985,5 +1163,16 @@ theorem bit_string_fwd (pos : Nat) (bytes : Bytes) (len : Nat) (ext : Bool) (lbP
                 rw [htake] at h
                 rw [← h, pad_eq]
                 simp only [List.append_assoc]
+          · subst hsr1 hlb
+            simp only [Int.toNat_zero, Nat.sub_zero] at h
+            rw [fragLoop_unc 1 (by decide) (len / 16384 + 1) _ len content (by omega) (Nat.le_refl _)] at h
+            simp only [Except.ok.injEq] at h
+            rcases isCon_false ubS hcon with rfl | ⟨u, rfl, hu⟩
+            · dsimp only
+              simp only [hnf, if_false, Bool.false_eq_true]
+              rw [← h]
+            · dsimp only
+              simp only [hnf, if_false, hu, decide_false, Bool.false_eq_true]
+              rw [← h]
 
 end Stgutg.Proofs.AperSpec
